@@ -2,7 +2,7 @@
 
 from hypothesis import strategies as st
 
-from lunaverif.core import Sub, Result, fail
+from lunaverif.core import Sub, Result, fail, HarnessError
 from lunaverif.gen import long_lists, weighted, bits
 from lunaverif.simkit import CycleHarness
 from lunaverif.bfm.g5_ss_in_host import InEndpointBfm
@@ -69,6 +69,7 @@ def _case():
 
 
 def materialize(case):
+    """-> (mps, endpoint number, transfers with concrete bytes, stream word gaps)"""
     mps, ep = CONFIGS[case["cfg"]]
     trs = []
     for tr in case["transfers"]:
@@ -90,8 +91,8 @@ def materialize(case):
 
 class InEndpointSub(Sub):
     name = "in-endpoint"
-    budget = {"quick": 2400, "thorough": 36000}
-    shrink_budget = 250
+    budget = {"quick": 4800, "thorough": 80000}
+    shrink_budget = 100
     rule = ("closed-loop histories of SuperSpeedStreamInEndpoint(max_packet_size 16/32/64/1024) against a legal "
             "host BFM (IN requests, ACK-and-continue, ACK-and-stop, retry requests, NRDY/ERDY flow control, stray "
             "TPs for other endpoints), a stream producer (1..4 chunks of k*mps+r bytes with/without `last`, gaps), "
@@ -130,9 +131,17 @@ class InEndpointSub(Sub):
         expected, leftover = packetize([(t["data"], t["last"]) for t in trs], mps)
         assert not leftover
         nwords = sum((len(t["data"]) + 3) // 4 for t in trs)
-        bfm = InEndpointBfm(dict(case, transfers=trs), ep, len(expected))
-        self.harness(case["cfg"]).run_driver(bfm, 3000 + 12 * nwords + 200 * len(expected))
-        return judge(bfm, expected, mps, ep)
+        sgaps = [min(g, 1) for g in case["sgaps"]] if mps >= 1024 else case["sgaps"]     # keep 1 KiB cases affordable
+        bfm = InEndpointBfm(dict(case, transfers=trs, sgaps=sgaps), ep, len(expected))
+        txr = case["txr"]
+        per_packet = (mps // 4) * len(txr["pat"]) + txr["stall"] + 2 * max(d["delay"] for d in case["hplan"]) + 80
+        budget = 500 + case["sdelay"] + case["hstart"] + nwords * (max(sgaps) + 2) + \
+            3 * len(expected) * per_packet
+        trace = self.harness(case["cfg"]).run_driver(bfm, budget)
+        res = judge(bfm, expected, mps, ep)
+        if bfm.stop_reason is None and len(trace) >= budget and (res.ok or res.signature == "delivery-stalled"):
+            raise HarnessError(f"cycle budget {budget} exhausted without the BFM reaching a verdict")
+        return res
 
 
 def judge(bfm, expected, mps, ep):
